@@ -49,7 +49,10 @@ func init() {
 					return true
 				case "C15":
 					// (which value the SUCCED of an acknowledged request carries is C15's matter, not C11's)
-					return f.Clause == "malformed-value" || (f.Clause == "reply-value" && strings.Contains(f.Detail, "rollback of"))
+					// a mismatch whose value had already diverged through a multi-operation pipeline before the
+					// admission (no reply is sent at admission, so it comes to light after the rollback) is the
+					// C15 pipeline finding, not a failed rollback
+					return f.Clause == "malformed-value" || (f.Clause == "reply-value" && strings.Contains(f.Detail, "rollback of") && f.Sig != "pipeline-with-more-than-one-value-operation")
 				case "C17":
 					return f.Clause == "structure" || strings.HasPrefix(f.Clause, "drain-") || strings.HasPrefix(f.Clause, "state-")
 				}
